@@ -32,7 +32,7 @@ PLAN = {
         'note': COMMON_TRUST + 'Not decided: panics inside okkhor/regex/poriborton/emojicon, sort panic-freedom for non-total comparators, RefCell double borrow, time complexity beyond termination; the only T2 function left is include_from_dictionary (flat_map: no vstd model); search_dictionary / clean_string are proved in unit fixed_search; internal_backspace_step is proved in unit fixed_reph (std contracts for Take::fold, String::len / truncate in byte offsets are T3); SplittedString::split is proved in unit split (std contracts of str::find with a closure and char_indices are T3; the UTF-8 offset facts are proved from vstd::utf8).',
     },
     'C02': {
-        'bounded': ['phonetic_api', 'fixed_api', 'ansi'], 'kani': ['k_keycode_to_char'],
+        'bounded': ['phonetic_api', 'fixed_api', 'ansi', 'history_independence'], 'kani': ['k_keycode_to_char'],
         'level': 'proof',
         'units': ['rank', 'fixed_session', 'phon', 'pmeth'],
         'technique': 'Verus postcondition sg_ok (len>=1, selection<len, auxiliary==composition) on every event function; read-out preconditions',
@@ -40,7 +40,7 @@ PLAN = {
         'note': COMMON_TRUST + 'std list-length specs (sort, dedup, truncate) assumed.  Pre-edit read-out with ANSI on is proved total only for texts the Bijoy converter of the dependency is defined on (precondition bj_ok): it panics on the vowel sign U+09C4 -- recorded open known finding C02-ansi-vocalic-rr (known_findings.json), re-executed on every run; the bounded check ansi reads every key of both layouts with ANSI on and reports any other failing read-out.',
     },
     'C03': {
-        'bounded': ['split', 'phonetic_api'], 'kani': ['k_keycode_to_char'],
+        'bounded': ['split', 'phonetic_api', 'history_independence'], 'kani': ['k_keycode_to_char'],
         'level': 'proof',
         'units': ['layout', 'util', 'phon', 'pmeth', 'split'],
         'technique': 'Verus: keycode_to_char == riti.h table; suggest_only_phonetic == avro(p)+avro(w)+avro(t) over split_spec; statement-level split lemmas',
@@ -66,13 +66,13 @@ PLAN = {
     'C06': {
         'bounded': ['fixed_rules', 'fixed_api'], 'static': ['context_glue'],
         'level': 'proof',
-        'units': ['fixed_session', 'fixed_pkv_common', 'pmeth', 'rank', 'phon'],
+        'units': ['fixed_session', 'fixed_pkv_common', 'pmeth', 'rank', 'phon', 'layout_get'],
         'technique': 'Verus postconditions: reset state after terminating events, truthful session flag, strictly decreasing measure, wf invariant (idle => no raw keys; scratch list overwritten before read)',
         'claim': 'Proof for both methods that commit, finish, ctrl-backspace and any backspace returning an empty suggestion leave the abstract state of a new context, that the session flag is exactly "composition non-empty or a sign waiting", that an idle backspace changes nothing, that every backspace strictly decreases a measure, that non-empty pre-edit implies an open session, and that the scratch list read by later events is a function of the current text only.',
         'note': COMMON_TRUST + 'Equality with a new context is at the level of the abstract state (buffer, raw keys, waiting sign; memo transparent by C05).',
     },
     'C07': {
-        'bounded': ['phonetic_api', 'history_independence', 'emoji_tables'], 'data': ['tables'],
+        'bounded': ['phonetic_api', 'history_independence', 'emoji_tables', 'update_engine'], 'data': ['tables'],
         'level': 'proof',
         'units': ['rank', 'util', 'phon', 'pmeth', 'data'],
         'technique': 'Verus: Rank::cmp == rank_cmp (class, number); assembly postcondition of suggest; push_checked duplicate-freedom at ranked-value level',
@@ -136,7 +136,7 @@ PLAN = {
         'note': COMMON_TRUST + 'The word-level theorem covers key values of one code point each and consonants of the explicit consonant set; fused layout values and words that start right after a hasanta are only in the bounded check fixed_rules (typewriter-order vs Unicode-order typing of syllable words); the ra + zo-fola defect found this way is repaired in /repo (known_findings.json).',
     },
     'C15': {
-        'bounded': ['fixed_api', 'update_engine', 'fixed_dict'], 'data': ['tables'],
+        'bounded': ['fixed_api', 'update_engine', 'fixed_dict'], 'data': ['tables'], 'kani': ['k_keycode_to_char'],
         'level': 'proof',
         'units': ['fixed_session', 'fixed_search', 'data'],
         'technique': 'Verus: functional postcondition list == fx_list(text, raw keys, options, data) for create_dictionary_suggestion, with lemma 1 <= len <= 9',
@@ -160,7 +160,7 @@ PLAN = {
         'note': COMMON_TRUST + 'The relational lemmas rest on one more axiom about std sorts: a comparison sort sees its elements only through the comparator (proved to be a function of the rank tags), so the arrangement it chooses is a function of the tag sequence.  Equality of the preselected index under the two settings is not a lemma (bounded check smart_quote).',
     },
     'C18': {
-        'bounded': ['emoji_tables', 'phonetic_api', 'update_engine', 'fixed_api'], 'data': ['tables'],
+        'bounded': ['emoji_tables', 'phonetic_api', 'update_engine', 'fixed_api'], 'data': ['tables'], 'kani': ['k_keycode_to_char'],
         'level': 'proof',
         'units': ['fixed_session', 'phon', 'rank', 'data', 'pmeth'],
         'technique': 'Verus: emoticon / emoji-name clauses of the assembled list, with the real zip(1..).map(closure) + extend code verified in place',
